@@ -24,6 +24,7 @@ import json
 import pkgutil
 import sys
 from pathlib import Path
+SCHEMA_V_TEXT = (Path(__file__).resolve().parent.parent / 'coq' / 'theories' / 'Codec' / 'Schema.v').read_text()
 
 HERE = Path(__file__).resolve().parent
 VERSION_CODES = {'KMIP_1_0': 10, 'KMIP_1_1': 11, 'KMIP_1_2': 12, 'KMIP_1_3': 13, 'KMIP_1_4': 14, 'KMIP_2_0': 20}
@@ -1733,7 +1734,11 @@ def render_coq(t):
         out.append('  c_wr := [' + ';\n           '.join(coq_item(i, v3) for i in c['wr']) + '];')
         if v3:
             out.append('  c_oversize_check := %s;' % ('true' if c['oversize'] else 'false'))
-            out.append('  c_substream := %s |}.' % ('true' if c.get('substream', True) else 'false'))
+            if 'c_minver' in SCHEMA_V_TEXT:
+                out.append('  c_substream := %s;' % ('true' if c.get('substream', True) else 'false'))
+                out.append('  c_minver := %d |}.' % (c['minver'] if c.get('minver') is not None else 0))
+            else:
+                out.append('  c_substream := %s |}.' % ('true' if c.get('substream', True) else 'false'))
         else:
             out.append('  c_oversize_check := %s |}.' % ('true' if c['oversize'] else 'false'))
         out.append('')
